@@ -8,6 +8,8 @@ mod api;
 mod hist;
 mod graphml;
 mod cent;
+mod comp;
+mod cluster;
 use std::io::{BufRead, Write};
 
 fn main() {
@@ -43,6 +45,8 @@ fn main() {
                     "api" => api::run_case(&cur, &mut o),
                     "graphml" => graphml::run_case(&cur, &mut o),
                     "cent" => cent::run_case(&cur, &mut o),
+                    "comp" => comp::run_case(&cur, &mut o),
+                    "cluster" => cluster::run_case(&cur, &mut o),
                     _ => {
                         eprintln!("unknown mode {}", mode);
                         std::process::exit(2);
